@@ -249,6 +249,19 @@ Proof.
   intros H. inversion H as [H1]. simpl. rewrite H1. destruct b; reflexivity.
 Qed.
 
+(* membership is the disjunction of the equalities (so `in` adds no way around the default filter either) *)
+Fixpoint in_as_or (c : cid) (ks : list cell) : qexpr :=
+  match ks with
+  | [] => QNot QTrue
+  | k :: rest => QOr (QCmp c CEq k) (in_as_or c rest)
+  end.
+
+Lemma eval_in_as_or cs r c ks : eval cs r (QIn c ks) = eval cs r (in_as_or c ks).
+Proof. induction ks as [|k ks IH]; simpl; [reflexivity|]. simpl in IH. now rewrite IH. Qed.
+
+Lemma mentions_in c ks : mentions_tracked (QIn c ks) = (TRACKED =? c).
+Proof. unfold mentions_tracked. simpl. now rewrite orb_false_r. Qed.
+
 (* ---------------------------------------------------------------------------------------------------------------- *)
 (* sub-views                                                                                                        *)
 (* ---------------------------------------------------------------------------------------------------------------- *)
